@@ -837,7 +837,8 @@ func (e *Enc) compTypingFact(c *Comp, v Term, alloc Term) {
 			case *types.Pointer, *types.Map, *types.Chan:
 				_, inner := arrParts(c.Sort)
 				ks, _ := arrParts(inner)
-				e.fact(Term{fmt.Sprintf("(forall ((m Int) (k %s)) (! (and (< (select (select %s m) k) %s) (< (rootof (select (select %s m) k)) %s)) :pattern ((select (select %s m) k))))", ks, v.S, alloc.S, v.S, alloc.S, v.S), SBool})
+				// (only for maps that exist: the cells of an object allocated later are written by whoever allocates it)
+				e.fact(Term{fmt.Sprintf("(forall ((m Int) (k %s)) (! (=> (< (rootof m) %s) (and (< (select (select %s m) k) %s) (< (rootof (select (select %s m) k)) %s))) :pattern ((select (select %s m) k))))", ks, alloc.S, v.S, alloc.S, v.S, alloc.S, v.S), SBool})
 			}
 		}
 		return
@@ -845,7 +846,7 @@ func (e *Enc) compTypingFact(c *Comp, v Term, alloc Term) {
 	if c.Scalar || c.ValType == nil {
 		// slice header shapes are asserted as ground facts at every load (shapeFacts)
 		if strings.HasSuffix(c.Name, ".base") && !strings.HasPrefix(c.Name, "MV ") {
-			e.fact(Term{fmt.Sprintf("(forall ((p Int)) (! (and (< (select %s p) %s) (< (rootof (select %s p)) %s)) :pattern ((select %s p))))", v.S, alloc.S, v.S, alloc.S, v.S), SBool})
+			e.fact(Term{fmt.Sprintf("(forall ((p Int)) (! (=> (< (rootof p) %s) (and (< (select %s p) %s) (< (rootof (select %s p)) %s))) :pattern ((select %s p))))", alloc.S, v.S, alloc.S, v.S, alloc.S, v.S), SBool})
 		}
 		return
 	}
@@ -857,6 +858,12 @@ func (e *Enc) compTypingFact(c *Comp, v Term, alloc Term) {
 	}
 	f := e.typingFact(c.ValType, Term{"(select " + v.S + " p)", SInt}, alloc)
 	if f.S == "true" {
+		return
+	}
+	// a cell of an object that does not exist yet holds no typed value: whoever allocates the object
+	// writes it (a callee's postcondition may speak about the fields of its fresh results)
+	if alloc.S != "" {
+		e.fact(Term{fmt.Sprintf("(forall ((p Int)) (! (=> (< (rootof p) %s) %s) :pattern ((select %s p))))", alloc.S, f.S, v.S), SBool})
 		return
 	}
 	e.fact(Term{fmt.Sprintf("(forall ((p Int)) (! %s :pattern ((select %s p))))", f.S, v.S), SBool})
